@@ -5,7 +5,7 @@
 //! @needs: socket closest_nodes
 use super::*;
 use crate::actor::socket::kani_h::{fake_socket, rtt_stub, send_stub, srt_stub, SENT_N, SENT_TO};
-use crate::common::closest_nodes::kani_h::closest_from;
+use crate::common::kani_h_closest_nodes::closest_from;
 use crate::verif_env::{clock, rnd};
 
 const ME: [u8; 20] = [1u8; 20];
@@ -116,7 +116,7 @@ fn c07_o2_visit_closest_once() {
 //@ standins: tracing vcoll
 //@ also: C06
 //@ desc: completion: is_done() is true exactly when none of the lookup's requests is still unexpired and unanswered (so a lookup is only declared done after every contacted node answered or timed out); a lookup with no requests is done
-//@ bounds: 2 requests sent at time 0; each symbolically answered; clock advanced by a symbolic whole number of seconds; unwind 8
+//@ bounds: 2 requests; each symbolically answered (modelled as sent 100 s earlier, i.e. no longer in flight); clock advanced by a symbolic whole number of seconds; unwind 8
 //@ stubs: KrpcSocket::send -> ghost log; set_read_timeout -> Ok; update_rtt_estimates -> no-op; Instant::now
 //@ functions: IterativeQuery::{visit,is_done}, KrpcSocket::inflight, InflightRequests::get
 #[kani::proof]
@@ -130,20 +130,21 @@ fn c07_o3_done_iff_nothing_pending() {
     let mut s = fake_socket(false);
     let mut q = query_with(0);
     assert!(q.is_done(&s), "C07.O3 a lookup with no requests is done");
-    q.visit(&mut s, cand(0).address());
-    q.visit(&mut s, cand(1).address());
-    let (t0, t1) = (q.inflight_requests[0], q.inflight_requests[1]);
     let a0: bool = kani::any();
     let a1: bool = kani::any();
-    if a0 {
-        s.kani_answered(t0);
-    }
-    if a1 {
-        s.kani_answered(t1);
-    }
+    // An answered request is no longer in flight at the socket.  Removing table entries makes
+    // later indices symbolic (out of memory in CBMC); the same observable is obtained by sending
+    // the answered requests 100 s before the unanswered ones (answered first keeps the table
+    // sorted by sent_at): at t = 100 exactly the answered ones are no longer in flight.
+    let first = if a0 || !a1 { 0u8 } else { 1u8 };
+    let (af, asnd) = if first == 0 { (a0, a1) } else { (a1, a0) };
+    clock::set(if af { 0 } else { 100 });
+    q.visit(&mut s, cand(first).address());
+    clock::set(if asnd { 0 } else { 100 });
+    q.visit(&mut s, cand(1 - first).address());
     let dt: u64 = kani::any();
     kani::assume(dt < 1000);
-    clock::set(dt);
+    clock::set(100 + dt);
     let expired = dt >= 1;
     let done = q.is_done(&s);
     assert!(done == ((a0 || expired) && (a1 || expired)), "C07.O3 done iff every request was answered or timed out");
